@@ -117,6 +117,7 @@ func Run(c *vk.Ctx) {
 		}
 		return true
 	}
+	meanFamily(c, &idx)
 	// Family D ("diamonds"): two plain 3-frame stacks with the same root and leaf, [x y z] and [x w z] over
 	// a1 a2 b c - the smallest profiles in which a residual edge x->z (y or w hidden) coexists with another
 	// path from x to z, which is what RemoveRedundantEdges acts on.
